@@ -9,5 +9,6 @@ func genExtra(repo string) map[string]string {
 		"Gen_randsites.v":  genRandSites(repo),
 		"Gen_check_ir.v":   genCheckIR(repo),
 		"Gen_vars.v":       genVars(repo),
+		"Gen_blamka.v":     genBlamka(repo),
 	}
 }
